@@ -149,7 +149,7 @@ impl ExternalSorter {
         I: IntoIterator<Item = T>,
         F: Fn(&T, &T) -> Ordering + Sync + Send + Copy,
     {
-        let mut chunk_buf = Vec::with_capacity(self.chunk_size);
+        let mut chunk_buf = Vec::new();
         let mut external_chunks = Vec::new();
         let mut num_items = 0;
 
@@ -158,7 +158,7 @@ impl ExternalSorter {
             chunk_buf.push(item);
             if chunk_buf.len() >= self.chunk_size {
                 external_chunks.push(self.create_chunk(chunk_buf, cmp)?);
-                chunk_buf = Vec::with_capacity(self.chunk_size);
+                chunk_buf = Vec::new();
             }
         }
 
